@@ -326,7 +326,7 @@ def check_case(case, ctx):
 
 
 def reach(counters, tier, info):
-    k = 1 if tier == "quick" else 20
+    k = 0.5 if tier == "quick" else 20
     out = []
     for style in ("brace", "bracket", "str"):
         for t in ("int", "str"):
